@@ -4,29 +4,86 @@
    History.v (disable/enable histories). *)
 From Coq Require Import List NArith Arith.
 Import ListNotations.
-Require Import Base.Wire Base.PyStr C14.Model C14.Lemmas C14.Dispatch C14.Witness C14.History.
+Require Import Base.Wire Base.PyStr C14.Model C14.Lemmas C14.Dispatch C14.Trace C14.Witness C14.History.
+From Coq Require Import Sorting.Sorted.
 
 (* Full statement: for every dispatch/behaviour function [final], configuration and command tree, the proxy
    machine ends, its call log (thread flags erased) and outcome are those of the post-order, left-to-right,
-   stop-at-the-first-stop evaluator eval_spec: every sub-command runs at most once, before the command containing
-   it and after everything to its left, and its reply is substituted as one argument.
-   The pinned code violates it when the Python stack cannot hold one proxy per sub-command (finding F22); proved:
-   it holds whenever the stack budget exceeds the number of sub-commands, and fails on a witness beyond. *)
+   stop-at-the-first-stop evaluator eval_spec.
+   The pinned code violates it only through finding C14.F22: evalArgs re-enters itself once per evaluated
+   sub-command and the Python stack is finite.  The domain excludes nothing else: in_domain tokens means at most
+   T14.STACK_SAFE_SUBS (= (sys.getrecursionlimit() - 200) / 13 = 61) bracketed sub-commands, the number of proxies
+   the stack is guaranteed to hold (stack_holds_domain K: the environment assumption, re-measured by the harness on
+   every run); any nesting limit, any on-empty behaviour, any [final].  *)
 Theorem C14_eval_refines_on_domain :
+  forall final K tokens, stack_holds_domain K -> in_domain tokens = true ->
+  exists log, machine final K tokens = Done log (snd (eval_spec final K tokens)) /\
+              erase log = fst (eval_spec final K tokens).
+Proof.
+  intros final K tokens HK Hd. apply machine_refines.
+  unfold stack_holds_domain in HK. unfold in_domain in Hd. apply Nat.leb_le in Hd. apply Nat.le_lt_trans with (1 := Hd). exact HK.
+Qed.
+Print Assumptions C14_eval_refines_on_domain.
+
+(* ... more generally whenever the stack budget exceeds the number of sub-commands (the budget is an oracle) *)
+Theorem C14_eval_refines_budget :
   forall final K tokens, (subs tokens < k_budget K)%nat ->
   exists log, machine final K tokens = Done log (snd (eval_spec final K tokens)) /\
               erase log = fst (eval_spec final K tokens).
 Proof. exact machine_refines. Qed.
-Print Assumptions C14_eval_refines_on_domain.
+Print Assumptions C14_eval_refines_budget.
 
+(* the first tree outside the domain, on a stack that just satisfies stack_holds_domain: STACK_SAFE_SUBS + 1 sibling
+   sub-commands; the machine abandons the evaluation after STACK_SAFE_SUBS of them, the specification replies *)
 Theorem C14_eval_refines_refuted :
-  exists final K tokens, (k_budget K <= subs tokens)%nat /\
+  exists final K tokens, stack_holds_domain K /\ in_domain tokens = false /\
     forall log, machine final K tokens <> Done log (snd (eval_spec final K tokens)).
 Proof.
-  exists final0, K_small, t1. destruct eval_refuted as (H1 & H2 & H3). split; [exact H1|].
-  intros log H. rewrite H2, H3 in H. discriminate.
+  exists final0, K_edge, t_edge.
+  destruct eval_refuted_edge as (H1 & H2 & _). split; [exact H1|]. split; [exact H2|].
+  exact eval_refuted_edge_neq.
 Qed.
 Print Assumptions C14_eval_refines_refuted.
+
+(* Exactly once, inner first, left to right -- at trace level.  [trace] lists, for the specification evaluator, the
+   brackets (paths in the command tree, [] = the whole line) in the order in which their proxies reach finalEval,
+   with the strings they hold then.  For every tree:
+   - the paths are strictly increasing for [before] (q before q' iff q is inside q' or in a bracket to the left of
+     the one holding q'): every sub-command body at most once, before the command containing it, siblings left to
+     right; no path twice; only brackets of the tree;
+   - if the evaluation yields a value (no error/ambiguity/invalid/mute/nesting stop), the trace IS the post-order
+     enumeration: every one of the subs+1 brackets exactly once;
+   - the call log of eval_spec is the projection of the trace (one call per event whose dispatch found a command),
+     hence by C14_eval_refines_on_domain so is the machine's log. *)
+Theorem C14_trace_exactly_once :
+  forall final K tokens,
+  StronglySorted before (map fst (trace final K tokens)) /\
+  NoDup (map fst (trace final K tokens)) /\
+  (forall q, In q (map fst (trace final K tokens)) -> In q (postorder tokens)) /\
+  (forall v, snd (trace_res final K tokens) = SVal v ->
+     map fst (trace final K tokens) = postorder tokens /\ length (trace final K tokens) = S (subs tokens)).
+Proof. exact trace_exactly_once. Qed.
+Print Assumptions C14_trace_exactly_once.
+
+Theorem C14_trace_is_the_log :
+  forall final K tokens, stack_holds_domain K -> in_domain tokens = true ->
+  exists log, machine final K tokens = Done log (snd (eval_spec final K tokens)) /\
+              erase log = calls_of final K (trace final K tokens) /\
+              (forall v, snd (trace_res final K tokens) = SVal v ->
+                 snd (eval_spec final K tokens) = match v with Some s => OReply s | None => ONone end).
+Proof.
+  intros final K tokens HK Hd. destruct (C14_eval_refines_on_domain final K tokens HK Hd) as (log & H1 & H2).
+  destruct (trace_calls final K tokens) as (H3 & H4 & _).
+  exists log. split; [exact H1|]. split; [rewrite H2; exact H3|exact H4].
+Qed.
+Print Assumptions C14_trace_is_the_log.
+
+(* the post-order enumeration itself: sorted for [before] (so duplicate-free) and of length subs + 1 *)
+Theorem C14_postorder :
+  forall tokens, StronglySorted before (postorder tokens) /\ length (postorder tokens) = S (subs tokens) /\
+                 forall q, ~ before q q.
+Proof. intro tokens. split; [apply postorder_sorted|]. split; [apply postorder_length|apply before_irrefl]. Qed.
+Print Assumptions C14_postorder.
 
 (* A bracket nested deeper than nested.maximum stops the evaluation: neither it nor any command containing it runs
    (the specification never reaches the root command's finalEval). *)
@@ -66,28 +123,28 @@ Theorem C14_disabled :
 Proof. exact disabled_never_selected. Qed.
 Print Assumptions C14_disabled.
 
-(* Full statement: `<plugin> <command> ...` selects exactly that plugin whenever it has the (enabled) command.
-   Violated on the pinned tree when some plugin carries a sub-callback named like the plugin (finding F23).
-   Proved (partial: the per-plugin answers, not yet the fold over irc.callbacks): the named plugin answers
-   [plugin; command]; any other plugin without such a sub-callback answers at most one word, hence loses. *)
-Theorem C14_qualified_partial :
-  forall E p pn c rest,
-  canon (p_name p) = pn -> find_group p pn = None -> find_group p c = None ->
+(* `<plugin> <command> ...` selects exactly that plugin -- whatever other plugins, commands, defaults, important
+   plugins, disabled lists and further arguments -- whenever the plugin has the (enabled, canonical) command, is loaded
+   once, and no sub-callback of any loaded plugin carries the plugin's name (nor one of its own the command's name,
+   which Python excludes: one attribute cannot be both).  The name clash is finding C14.F23 and the refuting witness. *)
+Theorem C14_qualified_on_domain :
+  forall E p l1 l2 a0 a1 rest pn c,
+  e_cbs E = l1 ++ p :: l2 ->
+  canon a0 = pn -> canon a1 = c -> canon (p_name p) = pn ->
+  find_group p pn = None -> find_group p c = None ->
   is_cmd E (p_name p) (p_meths p) c = true ->
-  p_getCommand E p (pn :: c :: rest) = [pn; c] /\
-  forall q, canon (p_name q) <> pn -> find_group q pn = None -> (length (p_getCommand E q (pn :: c :: rest)) <= 1)%nat.
-Proof.
-  intros E p pn c rest H1 H2 H3 H4. split; [apply qualified_own; assumption|].
-  intros q H5 H6. apply qualified_other; assumption.
-Qed.
-Print Assumptions C14_qualified_partial.
+  (forall q, In q (l1 ++ l2) -> canon (p_name q) <> pn /\ find_group q pn = None) ->
+  findCallbacksForArgs E (a0 :: a1 :: rest) = ([pn; c], [p]).
+Proof. exact qualified_reaches. Qed.
+Print Assumptions C14_qualified_on_domain.
 
 Theorem C14_qualified_refuted :
-  exists E p pn c, In p (e_cbs E) /\ canon (p_name p) = pn /\ find_group p pn = None /\ find_group p c = None /\
-    is_cmd E (p_name p) (p_meths p) c = true /\ length (snd (findCallbacksForArgs E [pn; c])) = 2%nat.
+  exists E p q pn c, e_cbs E = [p; q] /\ canon (p_name p) = pn /\ find_group p pn = None /\ find_group p c = None /\
+    is_cmd E (p_name p) (p_meths p) c = true /\ canon (p_name q) <> pn /\ find_group q pn <> None /\
+    findCallbacksForArgs E [pn; c] = ([pn; c], [p; q]).
 Proof.
-  exists E_shadow, Al, [97%N; 108%N], [97%N].
-  destruct qualified_refuted as (H1 & H2 & H3 & H4 & H5 & H6). repeat split; try assumption; vm_compute; reflexivity.
+  exists E_shadow, Al, Ga, [97%N; 108%N], [97%N].
+  repeat split; try (vm_compute; reflexivity); vm_compute; discriminate.
 Qed.
 Print Assumptions C14_qualified_refuted.
 
